@@ -70,10 +70,41 @@ def ne0(x):
 
 
 # ------------------------------------------------------------------ views
+def keymemo(fn):
+    """memoise a view/spec method on the z3 ids of its term arguments (terms are immutable)"""
+    name = fn.__name__
+
+    def g(self, *args):
+        cache = self.__dict__.setdefault("_memo", {})
+        key = (name,) + tuple(a.get_id() if hasattr(a, "get_id") else a for a in args)
+        r = cache.get(key)
+        if r is None:
+            r = (fn(self, *args), args)      # args kept alive: ids stay unique
+            cache[key] = r
+        return r[0]
+    g.__name__ = name
+    return g
+
+
 class SymBrokerView:
     """reads a Broker record (and its Exchange) out of a symbolic heap"""
 
+    def __new__(cls, I, broker, heap=None):
+        # one view per (broker, heap snapshot): the memo tables of its accessors are shared
+        if heap is None:
+            return object.__new__(cls)
+        cache = I.__dict__.setdefault("_views", {})
+        key = (broker.oid, id(heap))
+        v = cache.get(key)
+        if v is None or v[1] is not heap:
+            v = (object.__new__(cls), heap)
+            cache[key] = v
+        return v[0]
+
     def __init__(self, I, broker, heap=None):
+        if getattr(self, "_ready", False):
+            return
+        self._ready = True
         self.I, self.b = I, broker
         self.h = I.snapshot() if heap is None else heap
         f = self.h[broker.oid]
@@ -85,36 +116,46 @@ class SymBrokerView:
     def _m(self, name, k):
         return self.h[self.h[self.b.oid][name].oid]["get"](k)
 
+    @keymemo
     def qty(self, k):
         return self._m("_holdings_quantity", k).v
 
+    @keymemo
     def margin(self, k):
         return self._m("_holdings_margins", k).v
 
+    @keymemo
     def last(self, k):
         return self._m("_last_marking_to_market_price", k).v
 
+    @keymemo
     def has_last(self, k):
         return self.h[self.h[self.b.oid]["_last_marking_to_market_price"].oid]["dom"](k)
 
+    @keymemo
     def in_qty(self, k):
         return self.h[self.h[self.b.oid]["_holdings_quantity"].oid]["dom"](k)
 
+    @keymemo
     def in_margins(self, k):
         return self.h[self.h[self.b.oid]["_holdings_margins"].oid]["dom"](k)
 
     def _col(self, field, k):
         return self.h[self.books.oid]["cols"][field](sh(k))
 
+    @keymemo
     def bid(self, k):
         return self._col("bid_price", k).v
 
+    @keymemo
     def ask(self, k):
         return self._col("ask_price", k).v
 
+    @keymemo
     def bid_nan(self, k):
         return self._col("bid_price", k).nan
 
+    @keymemo
     def ask_nan(self, k):
         return self._col("ask_price", k).nan
 
